@@ -145,7 +145,17 @@ func (u *Upstream) Close(ctx context.Context, opts ...UpstreamCloseOption) error
 	return u.closeWithError(ctx, nil, opts...)
 }
 
+// closeWithError closes the stream. The caller must not hold u.mu.
 func (u *Upstream) closeWithError(ctx context.Context, causeError error, opts ...UpstreamCloseOption) error {
+	return u.doCloseWithError(ctx, causeError, false, opts...)
+}
+
+// closeWithErrorWithoutLock is closeWithError for a caller that already holds u.mu.
+func (u *Upstream) closeWithErrorWithoutLock(ctx context.Context, causeError error, opts ...UpstreamCloseOption) error {
+	return u.doCloseWithError(ctx, causeError, true, opts...)
+}
+
+func (u *Upstream) doCloseWithError(ctx context.Context, causeError error, holdsLock bool, opts ...UpstreamCloseOption) error {
 	defer u.cancel()
 	if u.isClosed() {
 		return nil
@@ -168,7 +178,12 @@ func (u *Upstream) closeWithError(ctx context.Context, causeError error, opts ..
 		})
 	}()
 
-	state := u.stateWithoutLock()
+	var state *UpstreamState
+	if holdsLock {
+		state = u.stateWithoutLock()
+	} else {
+		state = u.State()
+	}
 	resp, err := u.wireConn.SendUpstreamCloseRequest(ctx, &message.UpstreamCloseRequest{
 		StreamID:            u.ID,
 		TotalDataPoints:     state.TotalDataPoints,
@@ -462,7 +477,7 @@ func (u *Upstream) flush(ctx context.Context) error {
 	}
 
 	if err := u.validateState(); err != nil {
-		u.closeWithError(u.ctx, err)
+		u.closeWithErrorWithoutLock(u.ctx, err)
 		return err
 	}
 
